@@ -60,7 +60,7 @@ func genC13(g *G, n int, out io.Writer) {
 		// list constraint on ex.p0: node n1 has a value outside the list (reported), node n2 a hostile member (not reported)
 		member := "m" + g.hostile(4)
 		c.ListVals = []string{member, "k" + g.hostile(3), g.pick([]string{"plain", "a\"b", "c\\d", "%s", "e\nf"})}
-		c.Kind = "in"
+		c.Kind = g.pick([]string{"in", "in", "containsAll", "containsSome"})
 		var w yw
 		w.line(0, "profile: "+yq(c.Name))
 		w.line(0, "prefixes:")
@@ -78,11 +78,23 @@ func genC13(g *G, n int, out io.Writer) {
 		for _, v := range c.ListVals {
 			qs = append(qs, yq(v))
 		}
-		w.line(4, "in: ["+strings.Join(qs, ", ")+"]")
+		w.line(4, c.Kind+": ["+strings.Join(qs, ", ")+"]")
 		c.Profile = w.b.String()
 		gr := Graph{
 			{Id: nodeId(1), Types: []string{NS + "T"}, Props: []Prop{{NS + "p0", []Val{VS("outside")}}, {NS + "p1", []Val{VS(v1)}}, {NS + "p2", []Val{VS(v2)}}}},
 			{Id: nodeId(2), Types: []string{NS + "T"}, Props: []Prop{{NS + "p0", []Val{VS(member)}}}},
+		}
+		if c.Kind != "in" || g.coin(0.5) {
+			// the second node holds every listed value (so it satisfies in, containsAll and containsSome alike)
+			var all []Val
+			seenV := map[string]bool{}
+			for _, v := range c.ListVals {
+				if !seenV[v] {
+					seenV[v] = true
+					all = append(all, VS(v))
+				}
+			}
+			gr[1].Props[0].Vals = all
 		}
 		if v2 == "" {
 			// an empty string is a value like any other
